@@ -309,11 +309,25 @@ func (f *FieldCopyToGenerator) genListOrMap() *j.Statement {
 					j.Id("ElemType"): j.Id("o.ElemType"),
 					j.Id("Null"):     j.True(),
 				}),
-			).Else().Block(
-				j.If(j.Id("c.Elems").Op("==").Nil()).Block(
+			).Else().BlockFunc(func(g *j.Group) {
+				if f.IsMap {
+					// The value is updated in place: drop the keys the source does not have (any more)
+					g.If(j.Id("c.Elems").Op("==").Nil()).Block(
+						j.Id("c.Elems").Op("=").Add(mk),
+					).Else().Block(
+						j.For(j.Id("k")).Op(":=").Range().Id("c.Elems").Block(
+							j.If(j.List(j.Id("_"), j.Id("ok")).Op(":=").Id(fieldName).Index(j.Id("k")), j.Id("!ok")).Block(
+								j.Delete(j.Id("c.Elems"), j.Id("k")),
+							),
+						),
+					)
+					return
+				}
+				// The number of elements follows the source, also when the source is nil
+				g.If(j.Id("c.Elems").Op("==").Nil().Op("||").Len(j.Id(fieldName)).Op("!=").Len(j.Id("c.Elems"))).Block(
 					j.Id("c.Elems").Op("=").Add(mk),
-				),
-			)
+				)
+			})
 
 			g.If(j.Id(fieldName)).Op("!=").Nil().BlockFunc(func(g *j.Group) {
 				if (f.Kind == PrimitiveListKind) || (f.Kind == PrimitiveMapKind) {
